@@ -33,3 +33,53 @@ Definition writers_of (s:sformat) (f:sfield) : list (unit_model * setter * (N ->
   | None => []
   end.
 
+
+(* ---------- field operations of hand-written models: Avtp_<Fmt>_SetField(pdu, FIELD, v) etc. ---------- *)
+Section FieldOps.
+  Variable ldq : buf -> N -> N.
+  Variable stq : buf -> N -> N -> buf.
+  Variable s : sformat.
+
+  Definition bind {A B} (o:outcome A) (k:A -> outcome B) : outcome B :=
+    match o with Ok a => k a | OOB q => OOB q | Unmodelled => Unmodelled end.
+
+  Definition run_path_set (p:unit_model * setter * (N -> list N)) (v:N) (b:buf) : outcome buf :=
+    let '(u, st, pf) := p in
+    match run_setter ldq stq cfg (u_tables u) st (Some b) (pf v) with
+    | Ok (Some b') => Ok b' | Ok None => Unmodelled | OOB q => OOB q | Unmodelled => Unmodelled end.
+
+  (* by-identifier writer (first access path) / dedicated setter (second) *)
+  Definition fsetf (name:string) (v:N) (b:buf) : outcome buf :=
+    match find_sfield (sp_fields s) name with
+    | Some f => match writers_of s f with p :: _ => run_path_set p v b | [] => Unmodelled end
+    | None => Unmodelled
+    end.
+  Definition fsetd (name:string) (v:N) (b:buf) : outcome buf :=
+    match find_sfield (sp_fields s) name with
+    | Some f => match writers_of s f with _ :: p :: _ => run_path_set p v b | _ => Unmodelled end
+    | None => Unmodelled
+    end.
+  (* by-identifier reader / dedicated getter *)
+  Definition fgetf (name:string) (b:buf) : outcome N :=
+    match find_sfield (sp_fields s) name with
+    | Some f => match readers_of s f with (u, g, p) :: _ => run_getter ldq stq cfg (u_tables u) g (Some b) p | [] => Unmodelled end
+    | None => Unmodelled
+    end.
+  Definition fgetd (name:string) (b:buf) : outcome N :=
+    match find_sfield (sp_fields s) name with
+    | Some f => match readers_of s f with _ :: (u, g, p) :: _ => run_getter ldq stq cfg (u_tables u) g (Some b) p | _ => Unmodelled end
+    | None => Unmodelled
+    end.
+End FieldOps.
+
+(* reference counterparts *)
+Definition ref_set (s:sformat) (name:string) (v:N) (b:buf) : buf :=
+  match find_sfield (sp_fields s) name with
+  | Some f => spec_insert b (sf_first f) (sf_width f) v
+  | None => b
+  end.
+Definition ref_get (s:sformat) (name:string) (b:buf) : N :=
+  match find_sfield (sp_fields s) name with
+  | Some f => spec_extract b (sf_first f) (sf_width f)
+  | None => 0
+  end.
